@@ -19,6 +19,7 @@ EXTENDS Integers, Sequences, TLC
 
 B == 1000
 P == 8          \* mantissa limbs of a Flt (24 decimal digits)
+S18 == <<0, 0, 0, 0, 0, 0, 1>>   \* 10^18: the usual fixed-point scale of recorded observations
 
 ---------------------------------------------------------------------------
 (* naturals *)
@@ -66,6 +67,12 @@ Mul(a, b) == IF a = <<>> \/ b = <<>> THEN <<>>
              ELSE Norm([k \in 1..(Len(a) + Len(b) - 1) |-> ColSum(a, b, k)])
 MulSmall(a, n) == Mul(a, FromInt(n))
 
+\* floor(a / 2)
+RECURSIVE HalfFrom(_, _, _)
+HalfFrom(a, i, rem) == IF i = 0 THEN <<>>
+                       ELSE LET cur == rem * B + a[i] IN HalfFrom(a, i - 1, cur % 2) \o <<cur \div 2>>
+Half(a) == Strip(HalfFrom(a, Len(a), 0))
+
 RECURSIVE Pow(_, _)
 Pow(a, n) == IF n = 0 THEN <<1>> ELSE IF n = 1 THEN a
              ELSE IF n % 2 = 0 THEN LET h == Pow(a, n \div 2) IN Mul(h, h)
@@ -75,6 +82,16 @@ Pow(a, n) == IF n = 0 THEN <<1>> ELSE IF n = 1 THEN a
 RECURSIVE Zeros(_)
 Zeros(k) == IF k = 0 THEN <<>> ELSE <<0>> \o Zeros(k - 1)
 ShiftL(a, k) == IF a = <<>> THEN <<>> ELSE Zeros(k) \o a
+
+\* floor(n / d) for d > 0, by bisection (used for one-off constant tables only)
+RECURSIVE DivBisect(_, _, _, _)
+DivBisect(lo, hi, n, d) ==        \* invariant: lo d <= n < hi d
+    IF LE(hi, Add(lo, <<1>>)) THEN lo
+    ELSE LET mid == Half(Add(lo, hi)) IN
+         IF LE(Mul(mid, d), n) THEN DivBisect(mid, hi, n, d) ELSE DivBisect(lo, mid, n, d)
+DivFloor(n, d) == IF Cmp(n, d) < 0 THEN <<>>
+                  ELSE DivBisect(<<>>, Zeros(Len(n) - Len(d) + 1) \o <<1>>, n, d)
+
 
 ---------------------------------------------------------------------------
 (* signed integers *)
